@@ -111,6 +111,7 @@ func init() {
 			return mkString(s)
 		},
 		"vAssume": func(ex *Exec, fr *frame, a []value) value {
+			ex.flushAsserts()
 			ex.assume(ex.term(a[0]))
 			return nil
 		},
@@ -273,24 +274,64 @@ func (ex *Exec) assertProp(fr *frame, c *Term, msg string) {
 		ex.extra["violation"] = v
 		panic(pathAbort{kind: "violation", reason: msg})
 	}
+	// symbolic assertion: deferred and discharged in one query with the other
+	// assertions of this path (flushAsserts), under the path's final constraints.
+	ex.pending = append(ex.pending, pendingAssert{c: c, msg: msg, where: where})
+}
+
+type pendingAssert struct {
+	c     *Term
+	msg   string
+	where string
+}
+
+// flushAsserts discharges all deferred assertions of the current path. It
+// panics with a violation / inconclusive abort, or returns if all hold.
+func (ex *Exec) flushAsserts() {
+	if len(ex.pending) == 0 {
+		return
+	}
+	pend := ex.pending
+	ex.pending = nil
+	sh := ex.sh
 	ex.syncSolver()
-	neg := ex.tt.BNot(c)
-	switch ex.sol.CheckWith(neg) {
-	case Unsat:
+	any := ex.tt.fls
+	for _, p := range pend {
+		any = ex.tt.BOr(any, ex.tt.BNot(p.c))
+	}
+	r := ex.sol.CheckWith(any)
+	if r == Unsat {
 		sh.mu.Lock()
-		sh.assertsUnsat++
+		sh.assertsUnsat += int64(len(pend))
 		sh.mu.Unlock()
 		return
-	case Unknown:
+	}
+	// find the first assertion that can fail
+	for _, p := range pend {
+		neg := ex.tt.BNot(p.c)
+		switch ex.sol.CheckWith(neg) {
+		case Unsat:
+			sh.mu.Lock()
+			sh.assertsUnsat++
+			sh.mu.Unlock()
+			continue
+		case Unknown:
+			sh.mu.Lock()
+			sh.unknowns++
+			sh.mu.Unlock()
+			panic(pathAbort{kind: "inconclusive", reason: "solver unknown on assertion: " + p.msg})
+		}
+		v := ex.mkViolation("assert", p.msg, p.where, neg)
+		if v == nil {
+			panic(pathAbort{kind: "inconclusive", reason: "assert sat but model unavailable: " + p.msg})
+		}
+		ex.extra["violation"] = v
+		panic(pathAbort{kind: "violation", reason: p.msg})
+	}
+	if r == Unknown {
 		sh.mu.Lock()
 		sh.unknowns++
 		sh.mu.Unlock()
-		panic(pathAbort{kind: "inconclusive", reason: "solver unknown on assertion: " + msg})
+		panic(pathAbort{kind: "inconclusive", reason: "solver unknown on assertion batch"})
 	}
-	v := ex.mkViolation("assert", msg, where, neg)
-	if v == nil {
-		panic(pathAbort{kind: "inconclusive", reason: "assert sat but model unavailable: " + msg})
-	}
-	ex.extra["violation"] = v
-	panic(pathAbort{kind: "violation", reason: msg})
 }
